@@ -181,6 +181,21 @@ func ruleDangerousPredicate(w *World, r *Report) {
 					}
 				}
 			}
+			if pt, ok := w.prefixTestOf(c); ok && len(pt.prefixes) > 1 {
+				for _, s := range pt.prefixes {
+					consts[s] = true
+				}
+				// the two-argument test the any-of helper applies
+				for _, hb := range cal.Blocks {
+					for _, hi := range hb.Instrs {
+						if hc, ok := hi.(*ssa.Call); ok && len(hc.Common().Args) == 2 {
+							if h := hc.Common().StaticCallee(); h != nil && w.InModule(h) {
+								helpers[h] = true
+							}
+						}
+					}
+				}
+			}
 		}
 	}
 	want := []string{"data:", "data:image/", "file:", "gif;", "javascript:", "jpeg;", "png;", "svg+xml;", "vbscript:", "webp;"}
@@ -231,12 +246,14 @@ func ruleDangerousPredicate(w *World, r *Report) {
 			if !ok || len(c.Common().Args) < 2 {
 				continue
 			}
-			s, ok := w.constBytes(c.Common().Args[1])
+			pt, ok := w.prefixTestOf(c)
 			if !ok {
 				continue
 			}
 			if flowsToReturnTrue(c) {
-				ret[s] = true
+				for _, s := range pt.prefixes {
+					ret[s] = true
+				}
 			}
 		}
 	}
@@ -262,16 +279,12 @@ func ruleSchemeTestsUnconditional(w *World, r *Report) {
 	url := fn.Params[0]
 	schemes := []string{"javascript:", "vbscript:", "file:", "data:"}
 	// prefix test: a call with (url, constant) whose callee is a module helper or bytes.HasPrefix
-	prefixOf := func(v ssa.Value) (string, bool, bool) { // constant, subject is the url argument itself, ok
-		c, ok := v.(*ssa.Call)
-		if !ok || len(c.Common().Args) != 2 {
-			return "", false, false
-		}
-		s, ok := w.constBytes(c.Common().Args[1])
+	prefixOf := func(v ssa.Value) ([]string, bool, bool) { // constants, subject is the url argument itself, ok
+		pt, ok := w.prefixTestOf(v)
 		if !ok {
-			return "", false, false
+			return nil, false, false
 		}
-		return s, c.Common().Args[0] == ssa.Value(url), true
+		return pt.prefixes, pt.subject == ssa.Value(url), true
 	}
 	nPaths, nFalse := 0, 0
 	bad := ""
@@ -285,15 +298,17 @@ func ruleSchemeTestsUnconditional(w *World, r *Report) {
 		sawImage := false
 		note := func(cond ssa.Value, truth bool) {
 			for _, a := range condAtoms(cond, truth) {
-				if s, onURL, ok := prefixOf(a.V); ok {
+				if ss, onURL, ok := prefixOf(a.V); ok {
 					if onURL && !a.Truth {
-						failed[s] = true
+						for _, s := range ss {
+							failed[s] = true // a failed any-of test means every listed prefix failed
+						}
 					}
-					if onURL && a.Truth && s == "data:image/" {
+					if onURL && a.Truth && len(ss) == 1 && ss[0] == "data:image/" {
 						sawImage = true
 					}
-					if !onURL && a.Truth && sawImage {
-						exempt = true // a media type matched behind data:image/
+					if !onURL && sawImage {
+						exempt = true // the media-type decision behind data:image/
 					}
 				}
 				if bo, ok := a.V.(*ssa.BinOp); ok {
@@ -319,6 +334,9 @@ func ruleSchemeTestsUnconditional(w *World, r *Report) {
 			}
 		} else {
 			// returned as the value of a last test: the path returns false when that test fails
+			if sawImage {
+				return // inside the data:image/ arm the result is the media-type decision (constants checked by C04-P)
+			}
 			note(val, false)
 			if _, _, ok := prefixOf(val); !ok {
 				if bad == "" {
@@ -346,6 +364,81 @@ func ruleSchemeTestsUnconditional(w *World, r *Report) {
 	default:
 		r.OK(key, w.FnPos(fn), fmt.Sprintf("%d paths, %d of them can return false: each after all four tests failed or through the data:image exemption", nPaths, nFalse))
 	}
+}
+
+// prefixTest describes a call that tests a subject against constant prefixes: a two-argument test
+// (helper(url, K) / bytes.HasPrefix(url, K)) or an "any of" helper taking the prefixes as variadic arguments
+// (helper(url, K1, K2, …), a module function that returns true exactly when its two-argument test matches one element).
+type prefixTest struct {
+	subject  ssa.Value
+	prefixes []string
+}
+
+func (w *World) prefixTestOf(v ssa.Value) (prefixTest, bool) {
+	c, ok := v.(*ssa.Call)
+	if !ok || len(c.Common().Args) != 2 {
+		return prefixTest{}, false
+	}
+	args := c.Common().Args
+	if s, ok := w.constBytes(args[1]); ok {
+		return prefixTest{args[0], []string{s}}, true
+	}
+	// variadic: the second argument is a slice literal of constants, and the callee is an any-of loop
+	cal := c.Common().StaticCallee()
+	if cal == nil || !w.InModule(cal) || !cal.Signature.Variadic() || !w.isAnyOfPrefixHelper(cal) {
+		return prefixTest{}, false
+	}
+	ops := w.Sinks().variadicOperands(args[1])
+	if len(ops) == 0 {
+		return prefixTest{}, false
+	}
+	var ps []string
+	for _, o := range ops {
+		s, ok := w.constBytes(o)
+		if !ok {
+			return prefixTest{}, false
+		}
+		ps = append(ps, s)
+	}
+	return prefixTest{args[0], ps}, true
+}
+
+// isAnyOfPrefixHelper: func(s []byte, ps ...[]byte) bool that returns the constant true only under the true edge of a
+// two-argument call (s, element of ps) and the constant false otherwise.
+func (w *World) isAnyOfPrefixHelper(fn *ssa.Function) bool {
+	if len(fn.Params) != 2 || fn.Blocks == nil || fn.Signature.Results().Len() != 1 || !isBool(fn.Signature.Results().At(0).Type()) {
+		return false
+	}
+	sawTrue := false
+	for _, b := range fn.Blocks {
+		ret, ok := b.Instrs[len(b.Instrs)-1].(*ssa.Return)
+		if !ok {
+			continue
+		}
+		for _, leaf := range phiLeaves(ret.Results[0]) {
+			v, isC := constBool(leaf)
+			if !isC {
+				return false
+			}
+			if !v {
+				continue
+			}
+			sawTrue = true
+			okEdge := false
+			for _, cf := range dominatingConds(b) {
+				if !cf.Truth {
+					continue
+				}
+				if tc, ok := cf.If.Cond.(*ssa.Call); ok && len(tc.Common().Args) == 2 && tc.Common().Args[0] == ssa.Value(fn.Params[0]) {
+					okEdge = true
+				}
+			}
+			if !okEdge {
+				return false
+			}
+		}
+	}
+	return sawTrue
 }
 
 // flowsToReturnTrue: the boolean call result is returned directly, or branches (true edge) to a block
